@@ -580,8 +580,8 @@ def c01_r9(ctx):
     same payloads."""
     f = ctx.P.fn("blob::Blob::update_to_match_system_file_state")
     ctx.saw(f)
-    lps = f.loops()
-    ctx.need(len(lps) == 1, "one loop in the refresh function")
+    lps = [l for l in f.loops() if l["iter"] and all(o[0][0] == "param" and ("field", "file_infos") in o for o in l["iter"])]
+    ctx.need(len(lps) == 1, "one loop over the blob's infos in the refresh function")
     lp = lps[0]
     if not all(o[0][0] == "param" and ("field", "file_infos") in o and all(st[0] in ("iter", "adapt", "field") for st in o[1:]) for o in lp["iter"]):
         ctx.viol((f.id, "refresh-collection"), "the refresh does not traverse all of the blob's infos", f.where(lp["header"]))
@@ -780,9 +780,12 @@ def c17_r1(ctx):
             ctx.viol((f.id, "contradiction-unmatched"), "the Contradiction verdict is not examined", c.where)
             continue
         r = f.reach([x for (_, x) in contra])
-        rets = [(bb, idx, rv) for (bb, idx, rv, pl) in f.constructs("std::result::Result") if pl["local"] == 0 and bb in r and
-                f.dominated_by_edges(bb, contra)]
-        if not rets or any(rv["kind"]["variant"] != "Err" for (_, _, rv) in rets):
+        rets = [(bb, idx, rv) for (bb, idx, rv, pl) in f.constructs("std::result::Result") if pl["local"] == 0 and bb in r]
+        if not rets:
+            raise AnalysisError("idiom not recognised: no Result is built for the return value after the Contradiction arm of %s" % f.id)
+        errs = [bb for (bb, _, rv) in rets if rv["kind"]["variant"] == "Err"]
+        escape = f.reach([x for (_, x) in contra], avoid_blocks=errs)
+        if any(rv["kind"]["variant"] != "Err" for (_, _, rv) in rets) or any(b in escape for b in f.return_blocks):
             ctx.viol((f.id, "contradiction-accepted"), "a contradiction with the recorded outputs does not produce an error", c.where)
         else:
             # carries the indices
